@@ -16,7 +16,7 @@ type Issue struct {
 	Model  string            `json:"model,omitempty"`
 	Spec   string            `json:"spec,omitempty"`
 	Detail string            `json:"detail,omitempty"`
-	Known  string            `json:"known,omitempty"` // id in known_findings.json this matches
+	Known  string            `json:"known,omitempty"`  // id in known_findings.json this matches
 	Runner string            `json:"runner,omitempty"` // the runner that re-executes Input (replay)
 }
 
